@@ -4,6 +4,7 @@ from __future__ import annotations
 import ast
 
 from .. import kernelspec
+from ..dataflow import flow_of
 from ..model import AnalysisError, Program, body_walk, calls_in_body, dotted, norm
 from ..poly import Poly, PolyEnv
 from ..report import Result
@@ -57,16 +58,42 @@ def run(prog: Program, res: Result, tier: str) -> None:
 
     # ---- R2 running_filter length algebra --------------------------------------------------------------
     rf = prog.func(S, "running_filter")
-    pads = [s for s in body_walk(rf.node) if isinstance(s, ast.Assign) and norm(s.targets[0]) == "pad_size"]
     key = "running_filter:pad"
-    if len(pads) != 1 or not isinstance(pads[0].value, ast.IfExp) or norm(pads[0].value.test) != "window % 2":
-        res.bad("R2", rf, rf.node, "pad sizes are no longer chosen by window parity", construct="pad_size", key=key)
+    frf = flow_of(rf)
+    padc = [c for c in calls_in_body(rf.node) if dotted(c.func) == "np.pad"]
+    pad_arg = None
+    if len(padc) == 1:
+        pad_arg = next((k.value for k in padc[0].keywords if k.arg == "pad_width"), padc[0].args[1] if len(padc[0].args) > 1 else None)
+    ex = frf.expand(pad_arg, frf.cfg.node_for(padc[0])) if pad_arg is not None else None
+
+    def odd_branch(test: ast.AST):
+        """-> True if the test holds for odd windows, False if for even windows, None if it is not a parity test of `window`."""
+        t = test
+        neg = False
+        while isinstance(t, ast.UnaryOp) and isinstance(t.op, ast.Not):
+            t, neg = t.operand, not neg
+
+        def parity_expr(e):
+            return (isinstance(e, ast.BinOp) and isinstance(e.op, ast.Mod) and norm(e.left) == "window" and norm(e.right) == "2") or \
+                (isinstance(e, ast.BinOp) and isinstance(e.op, ast.BitAnd) and {norm(e.left), norm(e.right)} == {"window", "1"})
+        if parity_expr(t):
+            return not neg
+        if isinstance(t, ast.Compare) and len(t.ops) == 1 and parity_expr(t.left) and norm(t.comparators[0]) in ("0", "1"):
+            is_one = norm(t.comparators[0]) == "1"
+            if isinstance(t.ops[0], ast.Eq):
+                return (is_one) != neg
+            if isinstance(t.ops[0], ast.NotEq):
+                return (not is_one) != neg
+        return None
+
+    if not (isinstance(ex, ast.IfExp) and odd_branch(ex.test) is not None):
+        res.bad("R2", rf, padc[0] if padc else rf.node, "pad sizes are no longer chosen by window parity", construct="pad_size", key=key)
     else:
-        v = pads[0].value
+        odd_first = odd_branch(ex.test)
         k = Poly.sym("k")
         good = True
         detail = []
-        for branch, w in ((v.body, k.scale(2) + Poly.const(1)), (v.orelse, k.scale(2))):
+        for branch, w in ((ex.body if odd_first else ex.orelse, k.scale(2) + Poly.const(1)), (ex.orelse if odd_first else ex.body, k.scale(2))):
             if not (isinstance(branch, ast.Tuple) and len(branch.elts) == 2):
                 good = False
                 break
@@ -86,9 +113,9 @@ def run(prog: Program, res: Result, tier: str) -> None:
             if tot != w - Poly.const(1):
                 good = False
         if good:
-            res.ok("R2", rf, pads[0], "left+right padding = window-1 for odd and even windows (" + "; ".join(detail) + ")", key=key)
+            res.ok("R2", rf, padc[0], "left+right padding = window-1 for odd and even windows (" + "; ".join(detail) + ")", key=key)
         else:
-            res.bad("R2", rf, pads[0], "left+right padding is not window-1 for both parities (" + "; ".join(detail) + "): output length differs "
+            res.bad("R2", rf, padc[0], "left+right padding is not window-1 for both parities (" + "; ".join(detail) + "): output length differs "
                     "from the input length", key=key)
     verdict, why = kernelspec.compare(rf, "running_filter")
     if verdict == "incomparable":
@@ -99,21 +126,25 @@ def run(prog: Program, res: Result, tier: str) -> None:
         construct="running_filter", key="running_filter:definition")
 
     # ---- R3 deredden / containers ----------------------------------------------------------------------------
+    from ..normalform import canon, returned
     dr = prog.func("sigpyproc.timeseries", "TimeSeries.deredden")
-    src = norm(dr.node)
-    ok = "tim_filter = stats.running_filter(self.data, window_bins, method=method)" in src and "tim_deredden = self.data - tim_filter" in src and \
-        "window_bins = round(window / self.header.tsamp)" in src and "return TimeSeries(tim_deredden, self.header)" in src
+    filt = "stats.running_filter{}(self.data, round(window / self.header.tsamp), method=method)"
+    wants = {canon(f"TimeSeries(self.data - ({filt.format('_fast')} if fast else {filt.format('')}), self.header)"),
+             canon(f"TimeSeries(self.data - {filt.format('')}, self.header)")}
+    got = returned(dr)
+    ok = bool(got) and all(g in wants for g in got)
     (res.ok if ok else res.bad)("R3", dr, dr.node, "deredden = data - running_filter(data, round(window/tsamp))" if ok else
-                                "deredden no longer subtracts the running filter of the same data", construct="deredden", key="deredden")
+                                f"deredden no longer subtracts the running filter of the same data: returns {got}", construct="deredden", key="deredden")
     td = prog.func("sigpyproc.timeseries", "TimeSeries.downsample")
-    src = norm(td.node)
-    ok = "tim_data = stats.downsample_1d(self.data, factor, method=filter_method)" in src and \
-        "hdr_changes = {'tsamp': self.header.tsamp * factor, 'nsamples': len(tim_data)}" in src
+    dec = "stats.downsample_1d(self.data, factor, method=filter_method)"
+    want = canon(f"TimeSeries({dec}, self.header.new_header({{'tsamp': self.header.tsamp * factor, 'nsamples': len({dec})}}))")
+    got = [g for g in returned(td) if g != "self"]
+    ok = got == [want]
     (res.ok if ok else res.bad)("R3", td, td.node, "TimeSeries.downsample: decimated data with tsamp*factor and nsamples=len" if ok else
-                                "TimeSeries.downsample header/data bookkeeping changed", construct="TimeSeries.downsample", key="ts.downsample")
+                                f"TimeSeries.downsample header/data bookkeeping changed: returns {got}", construct="TimeSeries.downsample", key="ts.downsample")
     bd = prog.func("sigpyproc.block", "FilterbankBlock.downsample")
-    src = norm(bd.node)
-    ok = "new_ar = stats.downsample_2d(self.data, (ffactor, tfactor), filter_method)" in src
+    got = returned(bd)
+    ok = bool(got) and all(g.startswith(canon("FilterbankBlock(stats.downsample_2d(self.data, (ffactor, tfactor), filter_method), X)")[:-3]) for g in got)
     (res.ok if ok else res.bad)("R3", bd, bd.node, "block.downsample: axis 0 (channels) by ffactor, axis 1 (time) by tfactor" if ok else
                                 "block.downsample no longer passes (ffactor, tfactor) for (channel, time) axes", construct="block.downsample", key="block.downsample")
     res.floor("R1", 9)
